@@ -388,6 +388,7 @@ MONO_INPUTS_ALL = MONO_INPUTS_QUICK + [
     'i:1040_sa.other_itemized', 'v:1098:*.box_1', 'i:1040_s1.educator_expenses', 'i:1040_s1.alimony_paid',
     'i:1040_s1.traditional_ira_deduction', 'i:8889:you.hsa_contributions']
 _MONO_AN = None
+_MONO_TIER = 'thorough'
 
 
 def _mono_group(args):
@@ -424,15 +425,18 @@ def _mono_group(args):
     out = {}
     for g in MONO_GOALS:
         k = 'v:' + g
+        if x.startswith('v:w-2') and g in ('1040.22', '1040.24') and _MONO_TIER == 'quick':
+            continue          # wages -> tax after credits: provable for 2021 only and slow (deep unfolding); thorough tier
         if k in m.defs:
             out[g] = m.sign_of_line(k)
     return (y, x, out, {g: m.why.get('v:' + g, '') for g in out if out[g] == '?'})
 
 
-def mono_results(an, years, inputs):
+def mono_results(an, years, inputs, tier='thorough'):
     import multiprocessing
-    global _MONO_AN
+    global _MONO_AN, _MONO_TIER
     _MONO_AN = an
+    _MONO_TIER = tier
     tasks = [(y, x) for y in years for x in inputs if _input_exists(an, y, x)]
     if multiprocessing.current_process().daemon:
         # inside a self-test worker (no nested pools): the two leading inputs only
@@ -462,7 +466,7 @@ def monotone_directions(an, rep, tier):
     and must stay provable.  Directions that are not provable on the baseline are listed with the reason (notes)."""
     frozen = load_data('monotone_lines.json')
     inputs = MONO_INPUTS_QUICK if tier == 'quick' else MONO_INPUTS_ALL
-    res = mono_results(an, list(an.cat.years), inputs)
+    res = mono_results(an, list(an.cat.years), inputs, tier)
     n = 0
     got = {}
     for (y, x, out, why) in res:
